@@ -341,7 +341,7 @@ static void first_use_cases(void) {
     cases++; SQ.states++; SQ.evaluations++; SQ.transitions += 5;
     if (hung || !WIFEXITED(st) || WEXITSTATUS(st)) {
       char key[160]; snprintf(key, sizeof key, "first use: %s as the first library call %s", NM[fc], after_fini ? "after init + fini" : "of the process");
-      sq_found(key, "", "%s", hung ? "the process hangs" : !WIFEXITED(st) ? "the process crashes (the call does not initialise the library)" : msg);
+      sq_found(key, "", "%s", hung ? "the process hangs" : !WIFEXITED(st) ? "the process crashes (the call does not initialise the library)" : msg[0] ? msg : "the process exited with a failure status inside the library (an assertion of the library, or its own fatal diagnostic)");
     }
   }
   sq_detail("%ld first-use cases; ", cases);
